@@ -83,13 +83,13 @@ VARIANTS = [
     V('c05-ok-string-rewrite', 'C05', 'ok', '', K, r'''(r"'(''|\\'|[^'])*'", tokens.String.Single)''', r'''(r"'(?:''|\\'|[^'])*'", tokens.String.Single)'''),
     # ---- C06
     V('c06-pop-unguarded', 'C06', 'bad', 'R6.1', FO, '        while tlist.tokens[1].is_whitespace:\n            tlist.tokens.pop(1)', '        tlist.tokens.pop(1)'),
-    V('c06-blank-comments', 'C06', 'bad', 'R6.1', FO, "            if token.is_whitespace:\n                token.value = '' if last_was_ws or is_first_char else ' '", "            if token.is_whitespace or token.ttype in T.Comment:\n                token.value = '' if last_was_ws or is_first_char else ' '"),
+    V('c06-blank-comments', 'C06', 'bad', 'R6.1', FO, "            if token.is_whitespace:\n                token.value = '' if last_was_ws else ' '", "            if token.is_whitespace or token.ttype in T.Comment:\n                token.value = '' if last_was_ws else ' '"),
     V('c06-nl-punct', 'C06', 'bad', 'R6.1', FR, "        return sql.Token(\n            T.Whitespace,\n            self.n + self.char * max(0, self.leading_ws + offset))", "        return sql.Token(\n            T.Punctuation,\n            ';' + self.n + self.char * max(0, self.leading_ws + offset))"),
     V('c06-user-indent-char', 'C06', 'bad', 'R6.1', FM, "        options['indent_char'] = ' '", "        options['indent_char'] = options.get('indent_char', ' ')"),
     V('c06-delete-comment-prev', 'C06', 'bad', 'R6.1', FR, "            if prev_ and prev_.is_whitespace:\n                del tlist.tokens[pidx]\n                tidx -= 1\n\n            if not (uprev", "            if prev_ and (prev_.is_whitespace or prev_.ttype in T.Comment):\n                del tlist.tokens[pidx]\n                tidx -= 1\n\n            if not (uprev"),
     V('c06-order', 'C06', 'bad', 'R6.3', FM, "    if options.get('use_space_around_operators', False):\n        stack.enable_grouping()\n        stack.stmtprocess.append(filters.SpacesAroundOperatorsFilter())\n\n", ""),
     V('c06-handler-rename', 'C06', 'bad', 'R6.4', FR, 'def _process_identifierlist(self, tlist):', 'def _process_identifier_list(self, tlist):'),
-    V('c06-ok-is-whitespace-var', 'C06', 'ok', '', FO, "            if token.is_whitespace:\n                token.value = '' if last_was_ws or is_first_char else ' '", "            if token.is_whitespace:\n                token.value = ' ' if not (last_was_ws or is_first_char) else ''", 'equivalent rewrite of the blanking rule'),
+    V('c06-ok-is-whitespace-var', 'C06', 'ok', '', FO, "            if token.is_whitespace:\n                token.value = '' if last_was_ws else ' '", "            if token.is_whitespace:\n                token.value = ' ' if not last_was_ws else ''", 'equivalent rewrite of the blanking rule'),
     # ---- C07
     V('c07-no-first-guard', 'C07', 'bad', 'R7.3', FR, "        if first is None:\n            return\n", ""),
     V('c07-valid-next-none', 'C07', 'bad', 'R7.3', G, "        return token is not None and token.match(*sql.TypedLiteral.M_CLOSE)", "        return token.match(*sql.TypedLiteral.M_CLOSE)"),
@@ -113,7 +113,8 @@ VARIANTS = [
     V('c08-no-separator', 'C08', 'bad', 'R8.3', FO, "                if prev_ is not None and not prev_.match(T.Punctuation, '('):\n                    tlist.tokens.insert(tidx, _get_insert_token(token))\n                else:", "                if True:"),
     V('c08-no-resume-fix', 'C08', 'bad', 'R8.6', FO, "                    tidx -= 1\n                tlist.tokens.remove(token)", "                    pass\n                tlist.tokens.remove(token)", 'the defect fixed by 919bddc: the second of two adjacent comments survives'),
     V('c08-hint-direct-children', 'C08', 'bad', 'R8.6', FO, "if any(t.ttype in sql_hints for t in token.flatten()):", "if any(t.ttype in sql_hints for t in token.tokens):", 'the other half of 919bddc: a nested hint is lost'),
-    V('c10-stripws-no-border-pass', 'C10', 'bad', 'R10.9', FO, "                if token.is_whitespace and last_was_ws:\n                    token.value = ''\n                last_was_ws = token.is_whitespace\n            while", "                last_was_ws = token.is_whitespace\n            while", 'the defect fixed by 05f5255'),
+    V('c10-stripws-no-border-pass', 'C10', 'bad', 'R10.9', FO, "                if token.is_whitespace and last_was_ws:\n                    token.value = ''\n                last_was_ws = (token.is_whitespace", "                last_was_ws = (token.is_whitespace", 'the defect fixed by 05f5255'),
+    V('c10-stripws-first-child-blanked', 'C10', 'bad', 'R10.9', FO, "            if token.is_whitespace:\n                token.value = '' if last_was_ws else ' '\n            last_was_ws = token.is_whitespace\n", "            if token.is_whitespace:\n                token.value = '' if last_was_ws or token is tlist.tokens[0] else ' '\n            last_was_ws = token.is_whitespace\n", 'the defect fixed by 9dde7fa: the separator at the start of a nested list is removed'),
     V('c10-stripws-paren-minus2', 'C10', 'bad', 'R10.9', FO, "        cidx, _ = tlist.token_next_by(m=sql.Parenthesis.M_CLOSE)\n", "        cidx = len(tlist.tokens) - 1\n", 'the other half of 05f5255: ")" assumed to be the last child'),
     V('c15-accessor-no-guard', 'C15', 'bad', 'R15.6', S, "                try:\n                    if real_name:\n                        return token.get_real_name()\n                    return token.get_name()\n                except RecursionError as err:\n                    raise SQLParseError(\n                        'Maximum recursion depth exceeded') from err", "                if real_name:\n                    return token.get_real_name()\n                return token.get_name()", 'the defect fixed by a45b003'),
     V('c18-cte-needs-identifier', 'C18', 'bad', 'R18.2', S, "                if token is not None and token.ttype == T.Keyword.DML:\n                    return token.normalized", "                if isinstance(token, (Identifier, IdentifierList)):\n                    tidx, token = self.token_next(tidx, skip_ws=True)\n                    if token is not None and token.ttype == T.Keyword.DML:\n                        return token.normalized", 'the defect fixed by 6660ed3'),
@@ -128,7 +129,9 @@ VARIANTS = [
     V('c09-no-continue-descend', 'C09', 'bad', 'R9.1', G, "            _group_matching(token, cls)\n            continue\n", "            _group_matching(token, cls)\n"),
     V('c09-paren-late', 'C09', 'bad', 'R9.4', G, "        group_brackets,\n        group_parenthesis,\n", "        group_brackets,\n"),
     V('c09-endif-spelling', 'C09', 'bad', 'R9.3', S, "    M_CLOSE = T.Keyword, 'END IF'", "    M_CLOSE = T.Keyword, 'ENDIF'"),
-    V('c09-no-delims', 'C09', 'bad', 'R9.5', G, "                    and prev_ not in delimiters and next_ not in delimiters:", "                    and True:", 'the defect fixed by 3f597f9'),
+    V('c09-no-delims', 'C09', 'bad', 'R9.5', G, "                if tlist.tokens[from_idx] in delimiters \\\n                        or tlist.tokens[to_idx] in delimiters:", "                if False:", 'the defect fixed by 3f597f9'),
+    V('c09-overblocking', 'C09', 'bad', 'R9.5', G, "                if tlist.tokens[from_idx] in delimiters \\\n                        or tlist.tokens[to_idx] in delimiters:", "                if prev_ in delimiters or next_ in delimiters:", 'the regression fixed by 512a9c2: neighbours that are only looked at block the grouping'),
+    V('c13-typed-literal-blocked', 'C13', 'bad', 'R13.6', G, "                if tlist.tokens[from_idx] in delimiters \\\n                        or tlist.tokens[to_idx] in delimiters:", "                if prev_ in delimiters or next_ in delimiters:", 'same edit seen from C13: f(date \'..\') is no longer a TypedLiteral'),
     V('c09-no-groupable-begin', 'C09', 'bad', 'R9.6', S, "    M_OPEN = T.Keyword, 'BEGIN'\n    M_CLOSE = T.Keyword, 'END'\n\n    @property\n    def _groupable_tokens(self):\n        return self.tokens[1:-1]\n", "    M_OPEN = T.Keyword, 'BEGIN'\n    M_CLOSE = T.Keyword, 'END'\n", 'the defect fixed by 2b5db94'),
     V('c09-ok-rename', 'C09', 'ok', '', G, None, None, 'rename opens -> stack (whole file)'),
     # ---- C10
@@ -151,7 +154,9 @@ VARIANTS = [
     # ---- C13
     V('c13-no-returning', 'C13', 'bad', 'R13.1', S, "        'HAVING', 'RETURNING', 'INTO')", "        'HAVING', 'INTO')"),
     V('c13-identifiers-drop-comments', 'C13', 'bad', 'R13.2', S, "            if not (token.is_whitespace or token.match(T.Punctuation, ',')):", "            if not (token.is_whitespace or token.ttype in T.Punctuation):"),
-    V('c13-params-old', 'C13', 'bad', 'R13.3', S, "            elif imt(token, i=(Function, Identifier, TypedLiteral, Operation,\n                               Comparison, Case, Parenthesis),\n                     t=T.Literal):", "            elif imt(token, i=(Function, Identifier, TypedLiteral),\n                     t=T.Literal):", 'the defect fixed by 9fe9fd9'),
+    V('c13-params-old', 'C13', 'bad', 'R13.3', S, "            elif imt(token, i=(Function, Identifier, TypedLiteral, Operation,\n                               Comparison, Case, Parenthesis),\n                     t=[T.Literal, T.Name, T.Wildcard]):", "            elif imt(token, i=(Function, Identifier, TypedLiteral),\n                     t=[T.Literal, T.Name, T.Wildcard]):", 'the defect fixed by 9fe9fd9'),
+    V('c13-params-tuple-types', 'C13', 'bad', 'R13.3', S, "                     t=[T.Literal, T.Name, T.Wildcard]):", "                     t=(T.Literal, T.Name, T.Wildcard)):", 'imt compares a tuple of types by equality: f(1) yields nothing'),
+    V('c13-params-no-keyword-arm', 'C13', 'bad', 'R13.3', S, "            result = [token for token in parenthesis.tokens\n                      if token.ttype in T.Keyword]", "            result = []", 'half of the defect fixed by 0cffb30'),
     # ---- C14
     V('c14-lazy-string', 'C14', 'bad', 'R14.1', K, r'''(r"'(''|\\'|[^'])*'", tokens.String.Single)''', r'''(r"'(''|[^'])*?'", tokens.String.Single)'''),
     V('c14-greedy-comment', 'C14', 'bad', 'R14.1', K, r"(r'/\*[\s\S]*?\*/', tokens.Comment.Multiline)", r"(r'/\*[\s\S]*\*/', tokens.Comment.Multiline)"),
@@ -263,6 +268,21 @@ VARIANTS = [
     V('c17-parsestream-blockwise', 'C17', 'bad', 'R17.6', I, "    return stack.run(stream, encoding)", "    if hasattr(stream, 'readlines'):\n        return (s for block in stream.readlines(65536) for s in stack.run(block, encoding))\n    return stack.run(stream, encoding)"),
     V('c14-clean-before-lex', 'C14', 'bad', 'R14.9', I, "    return stack.run(stream, encoding)", "    return stack.run(stream.replace('\\ufeff', '') if isinstance(stream, str) else stream, encoding)"),
     V('c11-linewise-lexing', 'C11', 'bad', 'R11.9', FS, "            stream = lexer.tokenize(sql, encoding)", "            stream = (t for line in sql.splitlines(True) for t in lexer.tokenize(line, encoding)) if isinstance(sql, str) else lexer.tokenize(sql, encoding)"),
+    # ---- round 6 rules
+    V('c01-eq-lookahead', 'C01', 'bad', 'R1.12', L, "        for pos, char in iterable:\n", "        for pos, char in iterable:\n            if char == '=' and text[pos + 1] == ' ':\n                yield tokens.Operator.Comparison, char\n                continue\n", 'a fast path that looks one character ahead without a bound'),
+    V('c01-punct-fastpath-ok', 'C01', 'ok', None, L, "        for pos, char in iterable:\n", "        for pos, char in iterable:\n            if char in '(),;':\n                yield tokens.Punctuation, char\n                continue\n", 'a lossless single-character fast path that agrees with the table'),
+    V('c14-punct-fastpath-wrong-type', 'C14', 'bad', 'R14.S', L, "        for pos, char in iterable:\n", "        for pos, char in iterable:\n            if char in '(),;.':\n                yield tokens.Punctuation, char\n                continue\n", 'the fast path also takes "." which starts a number in ".5"'),
+    V('c20-init-skip-flag', 'C20', 'bad', 'R20.9', L, "        self.clear()\n        self.set_SQL_REGEX(keywords.SQL_REGEX)", "        if getattr(self, '_default_loaded', False) and self._SQL_REGEX:\n            return\n        self.clear()\n        self._default_loaded = True\n        self.set_SQL_REGEX(keywords.SQL_REGEX)"),
+    V('c17-unify-blank-only', 'C17', 'bad', 'R17.7', SP, "        unified = ' '.join(value.upper().split())", "        unified = ' '.join(value.upper().split(' '))", 'only blanks are collapsed'),
+    V('c08-serializer-splitlines-keepends', 'C08', 'ok', None, U, "    lines = SPLIT_REGEX.split(text)\n", "    lines = SPLIT_REGEX.split(text) if (\"'\" in text or '\"' in text) else [x for l in text.splitlines(True) for x in (l.rstrip('\\r\\n'), l[len(l.rstrip('\\r\\n')):])]\n"),
+    V('c08-serializer-splitlines', 'C08', 'bad', 'R8.9', U, "    lines = SPLIT_REGEX.split(text)\n", "    if \"'\" not in text and '\"' not in text:\n        return text.splitlines() + ([''] if text[-1:] in ('\\r', '\\n', '') else [])\n    lines = SPLIT_REGEX.split(text)\n", 'fast path through str.splitlines: VT, FF, NEL, LS, PS ... become line ends'),
+    V('c07-last-stmt-tokens', 'C07', 'bad', 'R7.8', FR, "            nl = '\\n' if str(self._last_stmt).endswith('\\n') else '\\n\\n'", "            nl = '\\n' if self._last_stmt.tokens and str(self._last_stmt.tokens[-1]).endswith('\\n') else '\\n\\n'"),
+    V('c15-indent-table', 'C15', 'ok', None, FR, "class ReindentFilter:\n", "_PAD = tuple(' ' * i for i in range(64))\n\n\nclass ReindentFilter:\n", 'unused table alone is harmless'),
+    V('c15-indent-table-used', 'C15', 'bad', 'R15.8', FR, ("class ReindentFilter:\n", "            self.n + self.char * max(0, self.leading_ws + offset))"), ("_PAD = tuple(' ' * i for i in range(64))\n\n\nclass ReindentFilter:\n", "            self.n + _PAD[max(0, self.leading_ws + offset)])"), 'indentation looked up in a table of 64 widths'),
+    V('c18-matching-cutoff', 'C18', 'bad', 'R18.6', G, "    opens = []\n", "    if len(tlist.tokens) > 5000:\n        return\n    opens = []\n"),
+    V('c03-offset-off-by-one', 'C03', 'bad', 'R3.B', S, "            if idx <= offset < end:", "            if idx < offset <= end:"),
+    V('c03-within-self', 'C03', 'bad', 'R3.B', S, "        parent = self.parent\n        while parent:\n            if isinstance(parent, group_cls):", "        parent = self\n        while parent:\n            if isinstance(parent, group_cls):"),
+    V('c02-group-tokens-no-refresh', 'C02', 'bad', 'R2.B', S, "            grp.value = str(start)\n", ""),
 ]
 
 WHOLE_FILE = {
